@@ -33,12 +33,18 @@ THEOREMS = [P + n for n in (
     'stem_padded', 'padStrs_spec', 'confound_selection', 'hrf_table_shape',
     'meadows_loader_syntax',
     # round 4
-    'session_lookups_stateless', 'session_meta_own_sidecar')]
+    'session_lookups_stateless', 'session_meta_own_sidecar',
+    # round 5
+    'meadows_json_task_values')]
 RULE = ('cases come from one PRNG and seven sub-generators: BIDS paths built from entity records by '
         'an independent formatter (all 64 presence patterns of ses/task/run/space/desc/derivative x '
         'random and adversarial labels, plus normpath noise and out-of-grammar paths); Meadows names '
         'of the three shapes and files written by the harness (.mat single / multi participant, .json '
-        'multi task; 2-6 stimuli, 1-4 RDMs, sort on/off) plus the rejected combinations; real '
+        'multi task; 2-6 stimuli, 1-4 RDMs, sort on/off) plus the rejected combinations; multi-task .json '
+        'files whose later multi-arrangement tasks (2-4 in all, tasks of other types before / between / '
+        'after) list the first task\'s stimuli in another order, other stimuli, a superset, a subset, '
+        'the same stems with another extension or the same list, every task\'s rdm laid out in its own '
+        'order with pairwise different values, judged from the file read back from disk; real '
         'mne.EpochsArray objects (also through a FIF file; repeated event codes, event_id dicts in any '
         'order, selections by name, epochs starting before / at / after the event); event tables x '
         'dyadic TR x volumes x confound tables (with n/a columns), the model placing the tabulated '
@@ -92,7 +98,7 @@ def generate(rng, tier):
 
 def search(rng, tier):
     # failing-input search: the numeric importers first (cheap, most fragile), then the names
-    for mod in (C20_spm, C20_dm, C20_tree, C20_session, C20_meadows, C20_mne, C20_bids):
+    for mod in (C20_spm, C20_dm, C20_meadows, C20_tree, C20_session, C20_mne, C20_bids):
         yield from mod.gen(rng, 'quick')
 
 
